@@ -16,9 +16,9 @@ import (
 func init() {
 	register(&CheckSpec{
 		ID: "C08", Fn: c08,
-		Rule:        "one evaluation = one complete phased iteration (GetNextMove until MoveNone) compared as a multiset with the batch generator for the same mode, under a generated generator state (PV move drawn from every stage of the position's pseudo-legal set, killers members/non-members, random history and counter-move tables, generator reused across positions with/without ResetOnDemand, interleaved and abandoned iterations); plus partition NonQuiet+Quiet=All for both values of UsePromNonQuiet, evasion-mode sets (batch and phased) against refchess pseudo-legality/legality, HasLegalMove against refchess; distinct = distinct (position, mode, generator state) triples",
+		Rule:        "one evaluation = one complete phased iteration (GetNextMove until MoveNone) compared as a multiset with the batch generator for the same mode, under a generated generator state (PV move drawn from every stage of the position's pseudo-legal set, killers members/non-members, random history and counter-move tables, generator reused across positions with/without ResetOnDemand, interleaved and abandoned iterations); plus partition NonQuiet+Quiet=All for both values of UsePromNonQuiet, evasion-mode sets (batch, phased, and phased on a generator that last worked - partially or to the end - on another in-check position without reset) against refchess pseudo-legality/legality, HasLegalMove against refchess; distinct = distinct (position, mode, generator state) triples",
 		Assumptions: []string{"PV moves are drawn from the position's pseudo-legal set (SetPvMove with an unplayable move is outside the property)", "refchess pseudo-legal definition of Appendix A"},
-		Required:    []string{"phased_iterations", "pv_from_capture", "pv_from_quiet", "pv_from_promotion", "pv_from_castling", "pv_from_king", "pv_last_of_stage", "killers_nonmember", "history_tables", "reused_without_reset", "interleaved", "abandoned", "evasion_positions", "evasion_double_check", "partition_checks", "haslegal_checks", "haslegal_false", "only_promotions_legal"},
+		Required:    []string{"phased_iterations", "pv_from_capture", "pv_from_quiet", "pv_from_promotion", "pv_from_castling", "pv_from_king", "pv_last_of_stage", "killers_nonmember", "history_tables", "reused_without_reset", "interleaved", "abandoned", "evasion_positions", "evasion_double_check", "evasion_reused_without_reset", "partition_checks", "haslegal_checks", "haslegal_false", "only_promotions_legal"},
 		MinEvals:    20000,
 	})
 }
@@ -75,6 +75,8 @@ func c08(c *Ctx) {
 	ref := movegen.NewMoveGen() // reference batch generator, no ordering state
 	work := movegen.NewMoveGen()
 	var prev *position.Position
+	var prevCheck *position.Position // the last in-check position probed (a copy)
+	evMg := movegen.NewMoveGen()
 
 	probe := func(p *position.Position, b *rc.Board, r *Rng, ctx map[string]interface{}) {
 		fen := b.FEN()
@@ -307,6 +309,25 @@ func c08(c *Ctx) {
 				}
 			}
 			check("phased", phased(work, p, movegen.GenAll, true))
+			// the same generator met another in-check position before (its evasion iteration
+			// abandoned after a few moves, as after a beta cut, or run to the end) and now
+			// meets p without a reset: a different position restarts the generator by itself
+			if prevCheck != nil && prevCheck.ZobristKey() != p.ZobristKey() {
+				evMg.ResetOnDemand()
+				n := 600
+				if r.Chance(0.7) {
+					n = 1 + r.Intn(3)
+				}
+				for i := 0; i < n; i++ {
+					if evMg.GetNextMove(prevCheck, movegen.GenAll, true) == types.MoveNone {
+						break
+					}
+				}
+				rep.Inc("evasion_reused_without_reset")
+				check("phased-no-reset", phased(evMg, p, movegen.GenAll, true))
+			}
+			cp := *p
+			prevCheck = &cp
 		}
 
 		// --- HasLegalMove
